@@ -13,7 +13,8 @@ RULE = ('unique-label cut molecules (atomistic last level) and cut coarse graphs
         'recursively into 1-3 intermediate levels; every inter-group fragment pair with c cut bonds becomes one uniquely '
         'labelled coarse descriptor pair of order c and the group-level edge order is the number of such pairs. Oracle: '
         'resolve_all() of the k-level string == resolve_all() of the two-level string == ground truth; in resolve_iter() the '
-        'coarse graph of step i+1 IS the fine graph of step i; the C02/C03 post-state contract holds at every step; repeated '
+        'coarse graph of step i+1 IS the fine graph of step i, and the bonds (order, descriptor pair) and node names a step handed out '
+        'are still the same after the resolver has moved on; the C02/C03 post-state contract holds at every step; repeated '
         'resolve(), resolve_iter() and resolve_all() on three fresh resolvers give identical canonical dumps. 15 % of the cases '
         'are polymer-style inputs (non-unique descriptors, "." bonds, multipliers, both conventions) written one level down '
         'inside a single coarse fragment "{[#SYS]}.{#SYS=...}.{units}": same final molecule as the flattened string. '
@@ -109,12 +110,24 @@ def run(case):
         r = MoleculeResolver.from_string(multi, **kw)
         prev_fine = None
         steps = 0
+        snaps = []
         for cg, aa in r.resolve_iter():
             steps += 1
             if prev_fine is not None and cg is not prev_fine:
                 viol.append(V('c06.coarse_is_not_previous_fine', f'{multi}: at step {steps} the coarse graph is not the previous step\'s fine graph'))
             prev_fine = aa
+            # what this step hands out: its bonds with order and the descriptor pair that made them
+            snaps.append((steps, aa, {frozenset(e[:2]): (e[2].get('order'), tuple(e[2].get('bonding') or ())) for e in aa.edges(data=True)},
+                          {n: (d.get('atomname'), d.get('element')) for n, d in aa.nodes(data=True)}))
         final = aa
+        # the resolver has moved on: the bonds (and names) of the graphs handed out by EARLIER steps still say the same
+        for step_no, gobj, edges0, nodes0 in snaps[:-1]:
+            edges1 = {frozenset(e[:2]): (e[2].get('order'), tuple(e[2].get('bonding') or ())) for e in gobj.edges(data=True)}
+            nodes1 = {n: (d.get('atomname'), d.get('element')) for n, d in gobj.nodes(data=True)}   # 'fragname' is re-labelled by design when the graph becomes the next step's coarse graph
+            if edges1 != edges0 or nodes1 != nodes0:
+                diff = [(sorted(k), edges0.get(k), edges1.get(k)) for k in set(edges0) | set(edges1) if edges0.get(k) != edges1.get(k)][:3]
+                viol.append(V('c06.earlier_step_changed_afterwards', f'{multi}: the graph returned by step {step_no} was altered by later steps: (bond, as returned, now) {diff}'))
+                break
         if steps != case['nlevels']:
             viol.append(V('c06.level_count', f'{multi}: resolve_iter yielded {steps} steps, the string has {case["nlevels"]} fragment levels'))
         ok, desc = final_matches(case, final, truth)
